@@ -170,7 +170,7 @@ def handleWObs (acc : Acc) (h : WHist) (kv : KV) (_line : String) : Acc × WHist
       let ok := tkv.bool "ok"
       let step : Step :=
         { pre := h.last.w, post := obs.w, env := env, sender := sender, funds := funds, tx := tx, ok := ok,
-          xfers := parseXfers (tkv.str "xf"), residue := obs.tmp || obs.sent || obs.liq,
+          xfers := parseXfers (tkv.str "xf"), residue := obs.tmp || obs.sent || obs.liq, err := tkv.str "err",
           liqsThisBlock := (h.liqLog.filter (fun p => p.2 == env.height)).map (·.1) }
       -- fault-injected execution (harness `fault` mode): only C08 is meaningful — the injected
       -- failure must fail the whole call and leave every contract's storage and every balance as before
@@ -189,9 +189,15 @@ def handleWObs (acc : Acc) (h : WHist) (kv : KV) (_line : String) : Acc × WHist
         else if (e.splitOn "transfer_failure").length > 1 then "[transfer-failure]"
         else if (e.splitOn "Querier").length > 1 then "[querier]"
         else s!"[{(e.take 32).toString}]"
+      -- … and whether the reference model (which mirrors the unchanged code, known defects included)
+      -- rejects the same call: a listed finding is pinned to the states in which the model fails too
+      let modelVerdict : String :=
+        match World.applyTx h.last.w env sender funds tx with
+        | .ok _ => "{model-accepts}"
+        | .error _ => "{model-rejects}"
       let acc := (allChecks step).foldl (fun a pc =>
         pc.2.foldl (fun a tag =>
-          a.report "SPECFAIL" pc.1 (if pc.1 == "C07" then s!"{kind}:{tag}{errClass}" else s!"{kind}:{tag}") tline) a) acc
+          a.report "SPECFAIL" pc.1 (if pc.1 == "C07" then s!"{kind}:{tag}{errClass}{modelVerdict}" else s!"{kind}:{tag}") tline) a) acc
       -- C01 quote recovery across the history
       let acc := obs.w.vamms.foldl (fun a p =>
         if (h.seen.filter (fun e => e.1 == p.1)).all (fun e => Spec.C01.recoveryOk p.2.cfg.decimals e.2 p.2.st) then a
